@@ -199,6 +199,34 @@ func main() {
 	{
 		op, ok := cmpOp(tx, body(tx.Func("prewriteMutation")), "commitTs", "req.StartVersion")
 		o.Set("prewrite.conflictOp", "percolator/txn.go:prewriteMutation", op, ok, "ge")
+		// prewriteMutation: `if lock != nil [&& lock.Ts == req.StartVersion] { return nil }` after the
+		// foreign-lock test = a duplicate prewrite keeps the transaction's own lock; absent = it is rewritten
+		{
+			pm := tx.Func("prewriteMutation")
+			keeps, shapeOK, foreign := false, pm != nil, false
+			if pm != nil {
+				for _, st := range pm.Body.List {
+					is, ok := st.(*ast.IfStmt)
+					if !ok || is.Init != nil {
+						continue
+					}
+					c := nospace(tx.Src(is.Cond))
+					if !strings.HasPrefix(c, "lock!=nil") {
+						continue
+					}
+					switch {
+					case c == "lock!=nil&&lock.Ts!=req.StartVersion":
+						foreign = true
+					case (c == "lock!=nil" || c == "lock!=nil&&lock.Ts==req.StartVersion") && foreign &&
+						is.Else == nil && stmtsSrc(tx, is.Body.List) == "return nil":
+						keeps = true
+					default:
+						shapeOK = false
+					}
+				}
+			}
+			o.Set("prewrite.keepsOwnLock", "percolator/txn.go:prewriteMutation", boolStr(keeps), shapeOK && foreign, "false")
+		}
 		op, ok = cmpOp(tx, body(tx.Func("commitKey")), "lock.MinCommitTs", "commitVersion")
 		o.Set("commit.minCommitOp", "percolator/txn.go:commitKey", op, ok, "gt")
 
@@ -315,7 +343,8 @@ def percCfg : PercCfg :=
   { getSkipsRollback := %s, getSkipsLock := %s, scanSkipsRollback := %s, scanSkipsLock := %s,
     scanSeesLockOnlyKeys := %s, getLockOp := %s, scanLockOp := %s, getTsOp := %s, scanVerOp := %s,
     commitChecksRollback := %s, conflictOp := %s,
-    rollbackChecksOwner := %s, ttlOp := %s, ttlOverflowGuard := %s, minCommitOp := %s }
+    rollbackChecksOwner := %s, ttlOp := %s, ttlOverflowGuard := %s, minCommitOp := %s,
+    prewriteKeepsOwnLock := %s }
 
 def lsmCfg : NoKV.Lsm.Cfg :=
   { l0SearchDir := .%s, tieRule := .%s, crossPick := .%s, levelOrder := .%s,
@@ -331,6 +360,7 @@ end NoKV.Generated.Perc
 		f["scan.seesLockOnlyKeys"], elib.LeanOp(f["get.lockOp"]), elib.LeanOp(f["scan.lockOp"]), elib.LeanOp(f["get.tsOp"]), elib.LeanOp(f["scan.verOp"]),
 		f["commit.checksRollback"], elib.LeanOp(f["prewrite.conflictOp"]),
 		f["rollback.checksOwner"], elib.LeanOp(f["ttl.op"]), f["ttl.overflowGuard"], elib.LeanOp(f["commit.minCommitOp"]),
+		f["prewrite.keepsOwnLock"],
 		f["lsm.l0SearchDir"], f["lsm.tieRule"], f["lsm.crossPick"], f["lsm.levelOrder"],
 		f["lsm.ingestOrder"], f["lsm.immOrder"], f["merge.eqKeeps"],
 		f["lsm.compactTopOrder"], f["lsm.overlapRightKey"], f["db.plainKeyLimit"],
